@@ -26,6 +26,8 @@ pub enum Trace {
     Garbage(garbage::GarbageTrace),
     Poison(poison::PoisonTrace),
     Diag(diag::DiagTrace),
+    /// stand-in when a trace could not be printed by a generator child: regenerate in place
+    Regenerate { prop: String, verif_seed: u64, index: u64, thorough: bool },
 }
 
 pub struct Meta {
@@ -93,6 +95,10 @@ pub fn generate(prop: &str, seed: u64, index: u64, thorough: bool) -> Trace {
 
 pub fn exec(t: &Trace, ctx: &mut Ctx) -> Result<(), Violation> {
     match t {
+        Trace::Regenerate { prop, verif_seed, index, thorough } => {
+            let inner = generate(prop, crate::rng::run_seed(*verif_seed, prop, *index), *index, *thorough);
+            exec(&inner, ctx)
+        }
         Trace::Ans(t) => {
             if ctx.on("C08") {
                 // twin run without the inspections: every later observable must be equal
@@ -164,6 +170,7 @@ pub fn exec(t: &Trace, ctx: &mut Ctx) -> Result<(), Violation> {
 
 pub fn ops_len(t: &Trace) -> usize {
     match t {
+        Trace::Regenerate { .. } => 0,
         Trace::Ans(t) => t.ops.len(),
         Trace::Range(t) => t.ops.len(),
         Trace::Bits(t) => t.ops.len(),
@@ -179,12 +186,14 @@ pub fn ops_len(t: &Trace) -> usize {
             poison::PoisonTrace::Quantile { quantiles, .. } => quantiles.len() + 2,
             poison::PoisonTrace::Tables { queries, .. } => queries.len() + 2,
             poison::PoisonTrace::ValidModel { .. } => 2,
+            poison::PoisonTrace::RawParts { uses, .. } => uses.len() + 2,
         },
     }
 }
 
 pub fn without_ops(t: &Trace, from: usize, to: usize) -> Trace {
     match t {
+        Trace::Regenerate { .. } => t.clone(),
         Trace::Ans(t) => {
             let mut t = t.clone();
             t.ops.drain(from..to.min(t.ops.len()));
@@ -236,6 +245,7 @@ pub fn without_ops(t: &Trace, from: usize, to: usize) -> Trace {
                 poison::PoisonTrace::Quantile { quantiles, .. } => { let b = b.min(quantiles.len()); if a < b { quantiles.drain(a..b); } }
                 poison::PoisonTrace::Tables { queries, .. } => { let b = b.min(queries.len()); if a < b { queries.drain(a..b); } }
                 poison::PoisonTrace::ValidModel { .. } => {}
+                poison::PoisonTrace::RawParts { uses, .. } => { let b = b.min(uses.len()); if a < b { uses.drain(a..b); } }
             }
             Trace::Poison(t)
         }
@@ -245,6 +255,7 @@ pub fn without_ops(t: &Trace, from: usize, to: usize) -> Trace {
 pub fn simplifications(t: &Trace) -> Vec<Trace> {
     let mut out = Vec::new();
     match t {
+        Trace::Regenerate { .. } => {}
         Trace::Poison(_) => {}
         Trace::Diag(_) => {}
         Trace::Garbage(t) => {
